@@ -383,27 +383,14 @@ theorem server_auth_partial (C : Crypto) (L : Loc) (fp : Option Bytes) (ops : Li
 
 /-! ### "otherwise the transport ends in Failed" -/
 
-/-- A Certificate message whose leaf does not hash to the expected fingerprint fails the transport on
-the spot (state Failed, the handler returns `Err`) … -/
-theorem certificate_mismatch_fails (C : Crypto) (e : Ep) (body leaf f : Bytes) (rest : List Bytes)
-    (hexp : e.ctx.expectedFp = some f) (hdec : C.certDecode body = some (leaf :: rest)) (hne : C.digest leaf ≠ f) :
-    handleCertificate C e body = failed e := by
-  unfold handleCertificate
-  simp [hdec, hexp, fpMismatch, hne]
-
-/-- … as do a ServerKeyExchange whose signature does not verify under the accepted leaf, a
-ServerHelloDone without a verified key exchange, and a Finished whose verify_data differs. -/
-theorem bad_signature_fails (C : Crypto) (e : Ep) (body share leaf cr sr : Bytes) (hc : e.isClient = true)
-    (hdec : C.skeDecode body = some share) (hleaf : e.ctx.peerCert = some leaf) (hcr : e.ctx.clientRandom = some cr)
-    (hsr : e.ctx.serverRandom = some sr) (hbad : C.sigOk leaf cr sr body = false) :
-    handleServerKeyExchange C e body = failed e := by
-  unfold handleServerKeyExchange
-  simp [hc, hdec, hleaf, hcr, hsr, hbad]
-
-theorem bad_finished_fails_client (C : Crypto) (e : Ep) (body : Bytes) (k : Keys) (hk : e.ctx.keys = some k)
-    (hbad : body ≠ C.vd k.ms false e.ctx.transcript) : handleFinishedClient C e body = failed e := by
-  unfold handleFinishedClient
-  simp [hk, hbad]
+/-- **the delivering record finds the endpoint Connected**: `onRecord` is what the datagram loop calls for each
+record with the state *at that record*; if that call hands a payload up, that state is Connected.  (So in a datagram
+`[close_notify, ApplicationData]` received while Connected the second record delivers nothing: the state at it is
+Closed.  `app_data_only_while_connected` above is the history-level corollary and only names *some* intermediate
+Connected state.) -/
+theorem delivering_record_finds_endpoint_connected (C : Crypto) (L : Loc) (e : Ep) (ct : Nat) (auth : Bool) (pl p : Bytes)
+    (h : Out.deliver p ∈ (onRecord C L e ct auth pl).out) : e.conn = .connected :=
+  onRecord_deliver_connected C L e ct auth pl p h
 
 /-- **Failed is final, for every history**: an endpoint in state Failed has no running loop
 (`alive = false`); it processes nothing further, hands nothing up and sends nothing on ticks. -/
@@ -449,12 +436,23 @@ theorem dead_endpoint_is_inert (A : DecFn) (C : Crypto) (L : Loc) (e : Ep) (bs :
     onPacket A C L e bs = (e, []) ∧ onTick e = [] := by
   simp [onPacket, onTick, h]
 
-/-- the handshake deadline ends a handshake that is still running: after it no live endpoint is
-Handshaking (a stuck handshake — lost messages, ignored out-of-order ones, a peer that never answers —
-ends in Failed, with the loop stopped) -/
-theorem deadline_ends_handshake (C : Crypto) (L : Loc) (e : Ep) (h : e.alive = true) (hh : e.conn = .handshaking) :
-    (stepOp C L e .deadline).1.conn = .failed ∧ (stepOp C L e .deadline).1.alive = false := by
-  simp [stepOp, onDeadline, h, hh]
+/-- **"otherwise the transport ends in Failed" — and stays there**: for every history `ops`, if the endpoint is
+Failed after it, then after *any* continuation `ops'` (datagrams with any AEAD behaviour, `send`, `close`, timer
+ticks, the deadline) it is the very same endpoint and the continuation produced no output: nothing is sent, nothing
+is delivered, the state never changes again.  (The per-handler facts that a non-matching Certificate, a bad
+ServerKeyExchange signature, a ServerHelloDone without verified key exchange, a wrong verify_data and the deadline
+lead to Failed are lemmas: `Lemmas/DtlsTerm.lean`, `certificate_mismatch_fails` … `deadline_ends_handshake`; the
+message-sequence filter that decides whether a given datagram reaches a handler is compared on the implementation,
+not summarised in a theorem.) -/
+theorem failed_forever (C : Crypto) (L : Loc) (isClient : Bool) (fp : Option Bytes) (ops ops' : List Op)
+    (h : (after C L isClient fp ops).conn = .failed) :
+    after C L isClient fp (ops ++ ops') = after C L isClient fp ops ∧
+    (runOps C L (after C L isClient fp ops) ops').2 = [] := by
+  have hdead := failed_is_dead C L isClient fp ops h
+  have hfin := dead_and_not_connected_is_final C L (after C L isClient fp ops) hdead (by rw [h]; decide) ops'
+  refine ⟨?_, by rw [hfin]⟩
+  unfold after at hfin ⊢
+  rw [runOps_append_fst, hfin]
 
 /-- **once the handshake has completed, an endpoint that is no longer Connected (Closed by an
 authenticated close_notify, Failed) never hands application data up again** — whatever arrives. -/
